@@ -18,6 +18,18 @@ type fallibleHash interface {
 	Err() error
 }
 
+// newHash returns a new hash.Hash for the given algorithm. It must be used
+// instead of alg.HashFunc, which panics for unknown algorithms, whenever the
+// algorithm may have been received from a peer.
+func newHash(alg protocol.HashAlg) (hash.Hash, error) {
+	switch alg {
+	case protocol.Sha256Hash, protocol.HmacSha256Hash, protocol.Sha384Hash, protocol.HmacSha384Hash:
+		return alg.HashFunc().New(), nil
+	default:
+		return nil, fmt.Errorf("unsupported hash algorithm: %d", alg)
+	}
+}
+
 // Compute an hmac.
 func hmacHash(h hash.Hash, v any) (protocol.Hmac, error) {
 	var hmac protocol.Hmac
